@@ -703,6 +703,17 @@ def fx_world(eng, st, pname):
                 "service_name": C("svc"), "_run_until": NONE}
         return eng_.ok(s, s.alloc(HObj("obj", rc, fields=flds, meta={"tag": "runnable"})))
 
+    def m_thread(eng_, s, recv, args, kwargs):
+        """some other thread (not the caller): join() returns, is_alive() is arbitrary; calls are logged"""
+        def join(e_, s_, r_, a_, k_):
+            s_.effects.append(Effect("thread", "join", list(a_), {}, None))
+            return e_.ok(s_, NONE)
+
+        def is_alive(e_, s_, r_, a_, k_):
+            return e_.ok(s_, P.fresh("bool", "thread.alive"))
+        return eng_.ok(s, s.alloc(HObj("opaque", None, meta={"tag": "thread", "name": "service", "truthy": True,
+                                                              "methods": {"join": join, "is_alive": is_alive}})))
+
     def m_cloud_exception(eng_, s, recv, args, kwargs):
         names = list(CLOUD_EXC)
         allowed = [cls(eng_, "cloudsync.exceptions:" + n) for n in names]
@@ -787,7 +798,7 @@ def fx_world(eng, st, pname):
                                                         "cloud_exception": m_cloud_exception,
                                                         "notification_manager": m_notification_manager,
                                                         "resolve_file": m_resolve_file,
-                                                        "event_manager": m_event_manager, "event": m_event, "storage": m_storage}}))
+                                                        "event_manager": m_event_manager, "event": m_event, "storage": m_storage, "thread": m_thread}}))
     eng.inputs[pname] = "world"
     return r
 
